@@ -11,6 +11,9 @@ pro c t                _ReplLockManagerImpl.prolongate     -> - <table>
 rel l c                _ReplLockManagerImpl.release        -> - <table>
 isacq l c now          _ReplLockManagerImpl.isAcquired     -> 1|0
 dump                                                       -> <table>
+rebuild u              the replica is rebuilt from its own snapshot: `_serialize()` -> `_deserialize()` into a
+                       fresh instance created with autoUnlockTime u that already holds lock 99 of client 99
+                                                           -> <autoUnlockTime afterwards> <table>
 cnew self last         new wrapper state                   -> ok
 ctry l att             first half of tryAcquire            -> <cmds>
 cfin l att acq T|F|N   second half of tryAcquire           -> T|F|N <cmds>
@@ -84,6 +87,12 @@ def step (st : St) (line : String) : St × String :=
       (st', s!"- {dump st'}")
     | "isacq", some [l, c, now] => (st, b01 (isAcquired st.cfg st.tbl l c now))
     | "dump", some [] => (st, dump st)
+    | "rebuild", some [u] =>
+      let cfg' : Cfg := { U := u, mono := st.cfg.mono }
+      let junk := (acquire cfg' Table.empty 99 99 0).1
+      let r := rebuild st.cfg st.tbl cfg' junk
+      let st' := { st with cfg := r.1, tbl := r.2, keys := insertKey st.keys 99 }
+      (st', s!"{st'.cfg.U} {dump st'}")
     | "cnew", some [self, last] => ({ st with cl := { self := self, lastProlong := last } }, "ok")
     | "ctry", some [l, att] => (st, cmdsStr [st.cl.tryAcquireCmd l att])
     | "ctick", some [o, ld, n1, n2, n3] =>
